@@ -120,6 +120,7 @@ F4 ==
     /\ dev = Cfg([inside_in |-> KeepAcl], NoFn, {B("inside_in", "inside", "in")}, ra, {"inside"})
     /\ tgt = Cfg([inside_in |-> KeepAcl], NoFn, {B("inside_in", "inside", "in")}, rb, {})
 
+\* (no multi-route family for ASA: "ASA doesn't allow two routes to identical destination", cisco/diff.go diffRoutes)
 -----------------------------------------------------------------------------
 (* F7: unmanaged overlay (C07): content outside Netspoc's scope that is     *)
 (* interleaved with and references / is referenced by managed content      *)
